@@ -1,2 +1,2 @@
 SPECIFICATION VSpec
-CONSTANTS G = 8 Keys = {"a"} NOps = 16 NProgs = 24 MaxCalls = 40
+CONSTANTS G = 8 Keys = {"a"} NOps = 19 NProgs = 24 MaxCalls = 40
